@@ -962,6 +962,11 @@ func checkFileBytesOwned(c *Ctx, rule string) {
 						check(a, x)
 					}
 				}
+			case *ast.ReturnStmt:
+				// a helper that hands the bytes of its buffer to its caller (who may put them in a file)
+				for _, r := range x.Results {
+					check(r, x)
+				}
 			}
 			return true
 		})
@@ -1155,77 +1160,84 @@ func checkFloatDigits(c *Ctx, rule string) {
 const ruleTextIntParserGuard = "specutil.ColumnDefault: a literal accepted by sqlx.IsLiteralNumber (anything strconv.ParseFloat accepts) reaches strconv.ParseInt only after a guard that sends literals containing a fraction point or an exponent ('.', 'e', 'E') to the float parser; otherwise marshalling a schema with DEFAULT 1e3 fails"
 
 func checkIntParserGuard(c *Ctx, rule string) {
-	fi := c.Func(rule, pSpecutil, "", "ColumnDefault")
-	if fi == nil {
+	root := c.Func(rule, pSpecutil, "", "ColumnDefault")
+	if root == nil {
 		return
 	}
-	info := fi.Info()
-	pm := parentMap(fi.Decl.Body)
+	// ColumnDefault and the package-local helpers it calls (the numeric arm may be extracted)
+	scopes := []*FuncInfo{root}
+	seen := map[*types.Func]bool{root.Obj: true}
+	for i := 0; i < len(scopes) && i < 8; i++ {
+		g := scopes[i]
+		for _, call := range callsIn(g.Decl.Body, true) {
+			fn := calleeOf(g.Info(), call)
+			if fn == nil || fn.Pkg() == nil || fn.Pkg().Path() != pSpecutil || seen[fn] {
+				continue
+			}
+			if h := c.FuncInfoOf(fn); h != nil && h.Decl.Body != nil {
+				seen[fn] = true
+				scopes = append(scopes, h)
+			}
+		}
+	}
 	n := 0
-	for _, call := range callsIn(fi.Decl.Body, true) {
-		fn := calleeOf(info, call)
-		if fn == nil || fn.Pkg() == nil || fn.Pkg().Path() != "strconv" || fn.Name() != "ParseInt" {
-			continue
-		}
-		n++
-		// the enclosing case clause must test IsLiteralNumber; a preceding sibling `if strings.Contains*(v, K) { … return }` must cover . e E
-		var cc *ast.CaseClause
-		for p := pm[call]; p != nil; p = pm[p] {
-			if x, ok := p.(*ast.CaseClause); ok {
-				isNum := false
-				for _, e := range x.List {
-					if nodeHasCall(info, e, isCallTo(pSqlx, "", "IsLiteralNumber")) != nil {
-						isNum = true
+	for _, fi := range scopes {
+		info := fi.Info()
+		var fl *Flow
+		for _, call := range callsIn(fi.Decl.Body, true) {
+			fn := calleeOf(info, call)
+			if fn == nil || fn.Pkg() == nil || fn.Pkg().Path() != "strconv" || fn.Name() != "ParseInt" || len(call.Args) < 1 {
+				continue
+			}
+			// only the parse of a literal that may be a float: the function (or its caller chain) consults IsLiteralNumber
+			if fi != root && !c.mayReach(root.Obj, func(g *types.Func) bool { return g == fi.Obj }, 2) {
+				continue
+			}
+			n++
+			if fl == nil {
+				fl = newFlow(info, fi.Decl.Body)
+			}
+			arg := types.ExprString(ast.Unparen(call.Args[0]))
+			covered := ""
+			for _, ch := range []string{".", "e", "E"} {
+				ch := ch
+				if fl.established(call, func(e ast.Expr, val bool) bool {
+					g, ok := ast.Unparen(e).(*ast.CallExpr)
+					if !ok || val || len(g.Args) != 2 {
+						return false
 					}
-				}
-				if isNum {
-					cc = x
-					break
-				}
-			}
-		}
-		if cc == nil {
-			c.Check(rule, "specutil.ColumnDefault|ParseInt guarded", call.Pos(), true, "")
-			continue
-		}
-		covered := ""
-		for _, st := range cc.Body {
-			if st.Pos() > call.Pos() {
-				break
-			}
-			ifs, ok := st.(*ast.IfStmt)
-			if !ok || len(ifs.Body.List) == 0 {
-				continue
-			}
-			if _, returns := ifs.Body.List[len(ifs.Body.List)-1].(*ast.ReturnStmt); !returns {
-				continue
-			}
-			for _, f := range impliedFacts(ifs.Cond, true) {
-				g, ok := f.expr.(*ast.CallExpr)
-				if !ok || !f.val || len(g.Args) != 2 {
-					continue
-				}
-				gf := calleeOf(info, g)
-				if gf == nil || gf.Pkg() == nil || gf.Pkg().Path() != "strings" {
-					continue
-				}
-				if k, ok := stringConst(info, g.Args[1]); ok {
-					switch gf.Name() {
-					case "Contains":
-						if len(k) == 1 {
-							covered += k
+					gf := calleeOf(info, g)
+					if gf == nil || gf.Pkg() == nil || gf.Pkg().Path() != "strings" || types.ExprString(ast.Unparen(g.Args[0])) != arg {
+						return false
+					}
+					k, ok := stringConst(info, g.Args[1])
+					if !ok {
+						if tv := info.Types[g.Args[1]]; tv.Value != nil && tv.Value.Kind() == constant.Int {
+							if v, ok2 := constant.Int64Val(tv.Value); ok2 {
+								k, ok = string(rune(v)), true
+							}
 						}
-					case "ContainsAny":
-						covered += k
 					}
+					if !ok {
+						return false
+					}
+					switch gf.Name() {
+					case "Contains", "ContainsRune":
+						return k == ch
+					case "ContainsAny":
+						return strings.Contains(k, ch)
+					}
+					return false
+				}) {
+					covered += ch
 				}
 			}
+			ok := covered == ".eE"
+			c.Check(rule, "specutil.ColumnDefault|ParseInt reached only by integer literals", call.Pos(), ok, "%s sends a number literal to strconv.ParseInt on a path that did not exclude a fraction point or an exponent (excluded on every path: %q): a literal with an exponent (DEFAULT 1e3) is a number for IsLiteralNumber but a syntax error for ParseInt, and marshalling the whole schema fails", fi.Name, covered)
 		}
-		ok := strings.Contains(covered, ".") && strings.Contains(covered, "e") && strings.Contains(covered, "E")
-		c.Check(rule, "specutil.ColumnDefault|ParseInt reached only by integer literals", call.Pos(), ok, "ColumnDefault sends a number literal to strconv.ParseInt unless it contains one of %q: a literal with an exponent (DEFAULT 1e3) is a number for IsLiteralNumber but a syntax error for ParseInt, and marshalling the whole schema fails", covered)
 	}
 	if n == 0 {
-		c.Unresolved(rule, "strconv.ParseInt in specutil.ColumnDefault")
+		c.Unresolved(rule, "strconv.ParseInt in specutil.ColumnDefault (or a helper it calls)")
 	}
 }
 
